@@ -45,7 +45,7 @@ type c13Op struct {
 	Amt    string `json:"amt"`
 }
 
-var c13Toks = []string{"", "TT", "CURA", "CURB"}
+var c13Toks = []string{"", "TT", "CURA", "CURB", "CU_RB", "RB"} // "CU_RB" and "RB" are two different allowed tokens
 
 func c13Records(w *World, in *Interner, prefix string) string {
 	type rec struct {
@@ -100,7 +100,7 @@ func c13Case(c *Ctx) error {
 		if rng.Intn(5) > 0 {
 			w.SetBalance("tt", balance.BalanceTypeToken, u.AddrString(), "", big.NewInt(int64(rng.Intn(300))))
 		}
-		for _, cur := range []string{"CURA", "CURB"} {
+		for _, cur := range []string{"CURA", "CURB", "CU_RB", "RB"} {
 			if rng.Intn(3) > 0 {
 				w.SetBalance("tt", balance.BalanceTypeAllowed, u.AddrString(), cur, big.NewInt(int64(rng.Intn(300))))
 			}
@@ -179,7 +179,7 @@ func c13Case(c *Ctx) error {
 			o.Addr = users[rng.Intn(len(users))].N()
 			o.Tok = 1
 			if o.Fam == "allowed" {
-				o.Tok = 2 + rng.Intn(2)
+				o.Tok = 2 + rng.Intn(4)
 			}
 			if rng.Intn(25) == 0 {
 				o.Tok = 0
